@@ -145,6 +145,85 @@ theorem keys_omUnion_nodup {β} : ∀ (b a : List (Name × β)),
     · rintro ((h | h) | h) <;> simp_all
     · rintro (h | h | h) <;> simp_all
 
+theorem lookup_isSome_iff {β} {m : List (Name × β)} {a : Name} :
+    (∃ v, m.lookup a = some v) ↔ a ∈ m.map (·.1) :=
+  ⟨fun ⟨_, h⟩ => lookup_some_mem_keys h, lookup_some_of_mem_keys⟩
+
+theorem lookup_reverse_nodup {β} : ∀ (m : List (Name × β)) (a : Name), (m.map (·.1)).Nodup →
+    m.reverse.lookup a = m.lookup a := by
+  intro m; induction m with
+  | nil => intro a _; rfl
+  | cons kv rest ih =>
+    intro a hnd
+    obtain ⟨k, v⟩ := kv
+    simp only [List.map_cons, List.nodup_cons] at hnd
+    rw [List.reverse_cons, List.lookup_append, ih a hnd.2, lookup_cons_eq, lookup_cons_eq]
+    by_cases hak : a = k
+    · subst hak
+      simp [lookup_none_of_not_mem hnd.1]
+    · simp [hak]
+
+theorem lookup_some_mem_pair {β} : ∀ {m : List (Name × β)} {a : Name} {v : β},
+    m.lookup a = some v → (a, v) ∈ m := by
+  intro m; induction m with
+  | nil => intro a v h; simp at h
+  | cons kv rest ih =>
+    intro a v h
+    obtain ⟨k, w⟩ := kv
+    rw [lookup_cons_eq] at h
+    by_cases hak : a = k
+    · subst hak; simp at h; subst h; exact List.mem_cons_self
+    · simp [hak] at h; exact List.mem_cons_of_mem _ (ih h)
+
+theorem mem_omInsert {β} : ∀ (m : List (Name × β)) (k : Name) (v : β) (x : Name × β),
+    x ∈ omInsert m k v → x ∈ m ∨ x = (k, v) := by
+  intro m; induction m with
+  | nil => intro k v x h; simp [omInsert] at h; exact Or.inr h
+  | cons kv rest ih =>
+    intro k v x h
+    obtain ⟨k', v'⟩ := kv
+    simp only [omInsert] at h
+    split at h
+    · cases List.mem_cons.mp h with
+      | inl h1 => exact Or.inr h1
+      | inr h1 => exact Or.inl (List.mem_cons_of_mem _ h1)
+    · cases List.mem_cons.mp h with
+      | inl h1 => exact Or.inl (h1 ▸ List.mem_cons_self)
+      | inr h1 =>
+        cases ih k v x h1 with
+        | inl h2 => exact Or.inl (List.mem_cons_of_mem _ h2)
+        | inr h2 => exact Or.inr h2
+
+/-- `[(k, ← e.get k) for k in l]` -/
+theorem mapM_getPairs {e : Env} : ∀ {l : List Name} {r : List (Name × Rat)},
+    l.mapM (fun k => (do pure (k, ← e.get k) : Except Err (Name × Rat))) = .ok r →
+    r.map (·.1) = l ∧ ∀ a, a ∈ l → r.lookup a = e.lookup a := by
+  intro l; induction l with
+  | nil => intro r h; simp [List.mapM_nil, pure, Except.pure] at h; subst h; simp
+  | cons k ks ih =>
+    intro r h
+    simp only [List.mapM_cons, bind, Except.bind, pure, Except.pure] at h
+    cases hg : e.get k with
+    | error err => simp [hg] at h
+    | ok v =>
+      simp only [hg] at h
+      cases hr : ks.mapM (fun k => (do pure (k, ← e.get k) : Except Err (Name × Rat))) with
+      | error err => simp only [bind, Except.bind, pure, Except.pure] at hr; simp [hr] at h
+      | ok r' =>
+        have hr' := hr
+        simp only [bind, Except.bind, pure, Except.pure] at hr'
+        simp only [hr', Except.ok.injEq] at h
+        subst h
+        obtain ⟨h1, h2⟩ := ih hr
+        refine ⟨by simp [h1], fun a ha => ?_⟩
+        rw [lookup_cons_eq]
+        by_cases hak : a = k
+        · subst hak; simp [Env.get_ok hg]
+        · simp [hak]
+          cases List.mem_cons.mp ha with
+          | inl h3 => exact absurd h3 hak
+          | inr h3 => exact h2 a h3
+
 /-! ### contents without initial assignments -/
 
 def plainVal : Val → Rat
